@@ -75,16 +75,21 @@ def make_goldens(memo_dir):
         g["seams"] = 60
         golden[name] = g
     # simulated solo builder: counts seams, cross-checks that the seams + memoised compiler
-    # do not change what is built
+    # do not change what is built.  These are ordinary runs: their violations count.
+    solo = []
     for name in P.TINY:
-        scn = {"seed": 1, "mode": "C14", "procs": [{"arrive": 0.0, "requests": [{"req": name, "timeout": 3}]}]}
+        scn = {"seed": 1, "mode": "C14", "pre": [], "faults": [], "stretch": [], "late": [],
+               "procs": [{"name": 0, "arrive": 0.0, "requests": [{"req": name, "timeout": 3}]}]}
         res = P.run_scenario(scn, golden, memo_dir)
-        if res["violations"]:
+        res["scn"] = scn
+        res["wall"] = 0.0
+        solo.append(res)
+        if any(k == "I-RES" for k, _ in res["violations"]) and len(res["violations"]) == 1:
             raise core.HarnessError(f"simulated solo build of {name} disagrees with the plain build: "
                                     f"{res['violations'][:2]}")
         golden[name]["seams"] = res["stats"]["seams"]
         golden[name]["trace"] = [[e[2], e[3]] for e in res["events"] if isinstance(e[1], int) and e[1] == 0]
-    return golden
+    return golden, solo
 
 
 # --------------------------------------------------------------------------------------
@@ -305,7 +310,7 @@ def replay(path):
     rp = core.load_replay(path)
     prop = rp["property"]
     memo = core.scratch_dir("jitmemo-")
-    golden = make_goldens(memo)
+    golden, _ = make_goldens(memo)
     res = P.run_scenario(rp["scenario"], golden, memo)
     hit = [v for v in res["violations"] if v[0] == rp["invariant"]]
     same = res["digest"] == rp.get("digest")
@@ -339,7 +344,7 @@ def run_check(prop, tier, base, replay_path=None):
     verd = core.Verdicts(prop)
     memo = core.scratch_dir("jitmemo-")
     try:
-        golden = make_goldens(memo)
+        golden, solo = make_goldens(memo)
     except core.HarnessError as e:
         verd.add_harness(str(e))
         return verd.finish()
@@ -369,6 +374,7 @@ def run_check(prop, tier, base, replay_path=None):
     if nondet:
         verd.add_harness(f"determinism self-test: {nondet}/{ndet} runs changed digest on re-run")
 
+    results = solo + results
     bykey = defaultdict(list)
     for r in results:
         for k in keyset(r):
@@ -403,6 +409,8 @@ def run_check(prop, tier, base, replay_path=None):
                                 + hit[0][1])
 
     # ---- evidence --------------------------------------------------------------------------
+    core.dump_digests((json.dumps(r["scn"], sort_keys=True)[:80] + str(r["scn"]["seed"]) + str(i), r["digest"])
+                      for i, r in enumerate(results))
     wall = time.time() - t0
     stats = Counter()
     for r in results:
